@@ -23,7 +23,9 @@ RegOps == {"add", "modify", "remove", "contains", "unit"}
 Guard(e) ==
   CASE e.op \in RegOps -> TRUE
     [] e.op = "make" -> Len(objs) < MaxObj
-    [] e.op \in {"to", "plus"} -> Len(objs) < MaxObj /\ e.i \in DOMAIN objs /\ (e.op = "plus" => e.j \in DOMAIN objs)
+    [] e.op \in {"to", "plus", "tou"} -> Len(objs) < MaxObj /\ e.i \in DOMAIN objs /\ (e.op # "to" => e.j \in DOMAIN objs)
+    [] e.op = "over" -> e.i \in DOMAIN objs /\ e.j \in DOMAIN objs /\ OverPlain(e.i, e.j) /\ Small(objs[e.i]) /\ Small(objs[e.j])
+    [] e.op = "convinu" -> e.i \in DOMAIN objs /\ e.j \in DOMAIN objs
     [] e.op = "times" -> e.i \in DOMAIN objs /\ e.j \in DOMAIN objs /\ TimesPlain(e.i, e.j) /\ Small(objs[e.i]) /\ Small(objs[e.j])
     [] e.op \in {"eq", "lt"} -> e.i \in DOMAIN objs /\ e.j \in DOMAIN objs
     [] OTHER -> e.i \in DOMAIN objs
@@ -38,6 +40,9 @@ StepAction(e) ==
     [] e.op = "convin" -> ConvIn(e.i, e.str)
     [] e.op = "plus" -> Plus(e.i, e.j)
     [] e.op = "times" -> Times(e.i, e.j)
+    [] e.op = "over" -> Over(e.i, e.j)
+    [] e.op = "tou" -> ToU(e.i, e.j)
+    [] e.op = "convinu" -> ConvInU(e.i, e.j)
     [] e.op \in {"eq", "lt"} -> Cmp(e.op, e.i, e.j)
     [] e.op \in {"copy", "deepcopy"} -> Dup(e.op, e.i)
     [] e.op = "pickle" -> Pickle(e.i)
@@ -78,6 +83,8 @@ Want(e) ==
     [] e.op \in {"to", "convin"} -> RefConv(ruser, pre[e.i], e.str)
     [] e.op = "plus" -> RefPlus(pre[e.i], pre[e.j])
     [] e.op = "times" -> RefTimes(pre[e.i], pre[e.j])
+    [] e.op = "over" -> RefOver(pre[e.i], pre[e.j])
+    [] e.op \in {"tou", "convinu"} -> RefConvU(pre[e.i], pre[e.j])
     [] e.op \in {"eq", "lt"} -> RefCmp(e.op, pre[e.i], pre[e.j])
     [] e.op \in {"copy", "deepcopy", "pickle"} -> RefSame(pre[e.i])
     [] e.op = "inbase" -> RefBase(pre[e.i])
@@ -92,7 +99,7 @@ ObsStale(n) == n \in DOMAIN pre /\ n \in DOMAIN preex /\
                Stale(ruser, [s |-> pre[n].s, d |-> pre[n].d, ex |-> [k \in Keys |-> preex[n][KeyIdx(k)]]])
 StaleOp(e) == ("i" \in DOMAIN e /\ ObsStale(e.i)) \/ ("j" \in DOMAIN e /\ ObsStale(e.j))
 \* did the call go through another handle than the last successful edit?
-Target(e) == IF e.op = "convin" THEN {e.i} ELSE {}
+Target(e) == IF e.op \in {"convin", "convinu"} THEN {e.i} ELSE {}
 FrameBad(e) == {n \in DOMAIN pre : /\ n \in DOMAIN e.objs
                                    /\ e.objs[n] # pre[n]
                                    /\ (n \notin Target(e) \/ Want(e).k # "obj")}
